@@ -98,8 +98,16 @@ RootTheorem     == IsCase => \A f \in Files : RootExcludedUntouched(Cfg(c), f)
 PatJson(p) == [s |-> PatStr(p), segs |-> p]
 ListJson(l) == [form |-> l.form, pats |-> [i \in DOMAIN l.pats |-> PatJson(l.pats[i])]]
 FPJson(x) == [apply |-> ListJson(x.apply), skip |-> ListJson(x.skip)]
+\* how the INPUT location is spelled on the command line: the patterns are matched against the normalized path of the file
+\* (`src/sub/a.lua`) whichever spelling is used -- the directory (`src`, `./src`), or one file of the tree given alone
+\* (`src/sub/a.lua`, `./src/sub/a.lua`, `src/x/../sub/a.lua`).  The form (and, for the single-file forms, the file) is a
+\* function of the case: each case is replayed under one spelling.
+InputForms == <<"dir", "dotdir", "dir", "file", "dotfile", "updownfile">>
+SlotsUsed == Cardinality({k \in 1..3 : c.rules[k].apply.form # "none"}) + Cardinality({k \in 1..3 : c.rules[k].skip.form # "none"})
+             + (IF c.top.apply.form # "none" THEN 3 ELSE 0) + (IF c.top.skip.form # "none" THEN 1 ELSE 0)
+CaseMix == Len(c.tree) + 2 * SlotsUsed + Len(PathStr(c.tree[1]))
 EmitCase == IsCase => PrintT("CASE " \o ToJson([
-  fam |-> c.fam,
+  fam |-> c.fam, inp |-> InputForms[(CaseMix % Len(InputForms)) + 1], fi |-> ((CaseMix \div Len(InputForms)) % Len(c.tree)) + 1,
   files |-> [i \in DOMAIN c.tree |-> [s |-> PathStr(c.tree[i]), segs |-> c.tree[i]]],
   top |-> FPJson(c.top),
   rules |-> [k \in 1..3 |-> FPJson(c.rules[k])],
